@@ -75,6 +75,11 @@ BlockTab ==
    tnA   |-> << D("TYPE", <<"@nA">>, "", FALSE, "nA", "") >>,
    tnB   |-> << D("TYPE", <<"@nB">>, "", FALSE, "nB", "") >>,
    tnC   |-> << D("TYPE", <<"@nC">>, "", FALSE, "nC", "") >>,
+   \* an ENUM whose value carries a note of two lines (recorded finding: the catalog keeps the raw line break and indentation)
+   enumML |-> << D("ENUM", <<"@e9">>, "", FALSE, "enml", "") >>,
+   \* quoted parameters that hold the two characters the quoting escapes (a quotation mark and a backslash)
+   infoQ |-> << D("INFO", <<>>, "", FALSE, "", ""), D("Title", <<"A \"quoted\" title \\ end">>, "", FALSE, "", ""), D("Version", <<"1.0-\"b\"">>, "", FALSE, "", "") >>,
+   srvQ  |-> << D("SERVER", <<"@s_q">>, "", FALSE, "", ""), D("BaseUrl", <<"https://h/{a}?x=\"1\"&y=\\">>, "", FALSE, "", "") >>,
    \* paths with "." segments (stand-alone method, URL with a method, JSON-RPC)
    dotP  |-> << D("GET", <<"pdot">>, "", FALSE, "", ""), D("RESP", <<"any">>, "", FALSE, "", "200") >>,
    dotX  |-> << D("URL", <<"pdotx">>, "", FALSE, "", ""), D("POST", <<>>, "", FALSE, "", ""), D("RESP", <<"any">>, "", FALSE, "", "200") >>,
